@@ -21,6 +21,7 @@ def generate(seed, tier="quick"):
             d["orbit_from"] = [0, d["orbit_from"][1] % lib["n"]]
     nan_lib = sampling.add_nan_library(rnd, cfg, 0, p=0.2)
     sampling.add_neg_inf_profile(rnd, cfg, 0, p=0.15)
+    alt = sampling.add_alt_units_library(rnd, cfg, 0, p=0.25)
     N = lib["n"]
     ops = []
     for oid in range(rnd.randint(2, 4)):
@@ -29,6 +30,8 @@ def generate(seed, tier="quick"):
         if nan_lib is not None and rnd.random() < 0.4:
             op["lib"] = nan_lib
         op.update(p)
+        if op["lib"] == 0:
+            sampling.use_alt_library(rnd, op, alt)
         op["kw"] = sampling.gen_iterative_kw(rnd, N, pname, logprobs=0.0)
         sampling.add_arg_types(rnd, op)
         ops.append(op)
